@@ -33,7 +33,7 @@ def plan(tier):
     return {"shards": 16, "timeout": 900 if tier == "quick" else 4 * 3600,
             "required_monitors": ["to-oracle", "to-must-raise", "source-unchanged", "round-trip",
                                   "definition-reference", "vector-to", "chain", "spelling",
-                                  "config-override"]}
+                                  "config-override", "conversion-history"]}
 
 
 def cases(ctx):
@@ -61,6 +61,8 @@ def cases(ctx):
         out.append({"id": f"chain-{i}", "kind": "chain", "i": i})
     for i in range(n):
         out.append({"id": f"vec-{i}", "kind": "vector", "i": i})
+    for i in range(n // 2):
+        out.append({"id": f"hist-{i}", "kind": "history", "i": i})
     return out
 
 
@@ -360,3 +362,67 @@ def _vector(case, ctx, res):
             res.violate("vector-component-wrong", f"Vector.to({u2!r}) component {c}: {msg}", sig=sig)
         if scale_dims(rc.unit) != scale_dims(osy.units(u2)):
             res.violate("wrong-target-unit", f"Vector.to({u2!r}) component {c} labelled {rc.unit!s}", sig=sig)
+
+
+def _history(case, ctx, res):
+    """a.to(u) depends only on a's current numbers: convert, tamper with the result / with a's buffer / with a
+    through an in-place operator, convert again (the second conversion must not remember the first)"""
+    osy = ctx.osyris
+    rng = ctx.rng("history", case["i"])
+    fam = gen.draw_family(rng, exclude=("dimensionless", "temperature", "magnetic"))
+    u1, u2 = gen.draw_unit(rng, fam), gen.draw_unit(rng, fam)
+    if u1 == u2:
+        u2 = [u for u in FAMILIES[fam] if u != u1][0]
+    is_vec = rng.random() < 0.4
+    n = int(rng.integers(2, 6))
+    nvec = int(rng.integers(1, 4))
+    comps = [gen.draw_values(rng, (n,), "float64", nonzero=True) for _ in range(nvec if is_vec else 1)]
+    obj = osy.Vector(*[c.copy() for c in comps], unit=u1) if is_vec else osy.Array(values=comps[0].copy(), unit=u1)
+    steps = []
+    res.count("conversion-history")
+    res.nontrivial = True
+    res.digest_src = {"hist": case["i"]}
+
+    def parts(o):
+        return [o] if type(o).__name__ == "Array" else list(o._xyz.values())
+
+    def verify(label):
+        out = attempt(lambda: obj.to(u2))
+        if not out.ok:
+            res.violate("raised-unexpectedly", f"{label}: to({u2!r}) {out.describe()}", steps=steps)
+            return None
+        for ci, (c_src, c_res) in enumerate(zip(parts(obj), parts(out.value))):
+            msg = compare_quantity(c_res.values, c_res.unit, Q.of(np.array(c_src.values), c_src.unit), rtol_for("float64"))
+            if msg:
+                res.violate("conversion-depends-on-history", f"{label} after {steps}: {'Vector' if is_vec else 'Array'}({u1!r}).to({u2!r}) "
+                            f"component {ci} is not the current quantity: {msg}", steps=steps)
+                return None
+        back = attempt(lambda: out.value.to(u1))
+        if back.ok:
+            for c_src, c_b in zip(parts(obj), parts(back.value)):
+                a, b = np.asarray(c_src.values, dtype=np.longdouble), np.asarray(c_b.values, dtype=np.longdouble)
+                if np.any(np.abs(a - b) > 1e-12 * np.abs(a)):
+                    res.violate("round-trip-off", f"{label} after {steps}: round trip does not reproduce the source", steps=steps)
+                    return None
+        return out.value
+    for step in range(int(rng.integers(2, 6))):
+        r = verify(f"step {step}")
+        if r is None:
+            return
+        op = ["mutate-result", "write-buffer", "inplace-source", "result-values", "third-unit"][int(rng.integers(0, 5))]
+        steps.append(op)
+        if op == "mutate-result":
+            r *= 2.0                                  # the caller owns the result; the source must not notice
+        elif op == "result-values":
+            for c in parts(r):
+                c.values[0] = 12345.0
+        elif op == "write-buffer":
+            for c in parts(obj):
+                c.values[int(rng.integers(0, n))] = float(rng.integers(1, 99))
+        elif op == "inplace-source":
+            obj *= 3.0
+        else:
+            u3 = gen.draw_unit(rng, fam)
+            attempt(lambda: obj.to(u3))
+    verify("final")
+    res.sample = {"object": "Vector" if is_vec else "Array", "units": [u1, u2], "steps": steps}
